@@ -46,12 +46,14 @@ CLAIMED = {
     'C08': {
         'text': 'Deductive proof (Verus): acyclicity of variable-to-variable chains is a pre/postcondition of the verbatim unify (every exit, including both loops and the recursive calls), '
                 'via lemma_bind_keeps_acyclic (binding an unbound x to a non-variable, or to a variable whose chain does not end at x, keeps all chains finite). Unbounded in sequence length: '
-                'the invariant composes over any sequence of successful unifications. Chain-walking functions get decreases clauses in unit subst. '
+                'the invariant composes over any sequence of successful unifications - and that composition is machine-checked for the sequences the SEARCH makes (unit solver_wf: overlay contracts on the verbatim bodies of next_solution, '
+                'next_solution_and / _or / _bip and the node constructors over the ghost node heap; solve / solve_all): every goal in the search state holds terms unify accepts, every set of bindings in a node or returned as an answer is well formed and acyclic, '
+                'so the preconditions of unify, of the ten built-in predicates and of print / print_list are proved at the solver\'s call sites, and the built-ins are proved to return such bindings. Chain-walking functions get decreases clauses in unit subst. '
                 'Resolving an answer: replace_variables (verbatim body, unit replace) terminates - decreases (size of the value under a solution, rank along chains) - for every term and every binding set whose chains end and which has a finite solution '
                 '(the statement\'s "needs no occurs check"); the result has the same value under every solution and contains no bound variable.',
-        'note': 'Trusted: T1, T2, T4, T5. Not covered: Display / format_solution; that unify preserves solvability (it does not: $X = f($X) succeeds - the occurs-check exclusion of the statement); termination of unify itself.',
+        'note': 'Trusted: T1, T2, T4, T5, heap model T8 for the search invariant. RELATIVE TO: the stored rules and the query are well formed (what the parsers return, C18). Not covered: Display / format_solution; that unify preserves solvability (it does not: $X = f($X) succeeds - the occurs-check exclusion of the statement); termination of unify itself.',
         'technique': 'contract-based deductive verification (Verus) of extracted real code',
-        'design_ref': 'DESIGN.md 5/C08 and 8.15',
+        'design_ref': 'DESIGN.md 5/C08, 8.15 and 8.37',
     },
     'C09': {
         'text': 'Deductive proof (Verus): postcondition of the verbatim unify - if either operand is $_ the result is Some of the identical substitution set (same Rc). '
@@ -67,7 +69,7 @@ CLAIMED = {
                 'Freshness: the id counter is ghost state threaded through the renaming family (next_id moves it up by one: complete Kani harness on the real static), so every id of a renamed clause lies above the counter as it was and up to the counter as it is (get_rule #ids_fresh, #ids_interval). '
                 'In the search (unit solver_ids: overlay contracts on the verbatim bodies of next_solution, next_solution_and / _or / _bip, make_solution_node, make_base_node, set_head_node, over the node heap with the counter as a ghost field) every variable id referenced from the search state - '
                 'goals, remaining operands and bindings of every solution node, and every answer - is at most the counter before and after every request; so the ids of a fresh clause copy are in use nowhere else in the search, and the rewinding of the counter after a failed head unification gives back ids that nothing refers to.',
-        'note': "Trusted: obeys_key_model::<String>() for HashMap<String,_> (T2), next_id's contract in Verus (assumed there, proved by Kani), T1, T4, T5. RELATIVE TO (assumed in unit solver_ids): the preconditions of unify and get_rule at the solver's call sites (C08 / C15 invariants are not carried through the search), append / functor / include / exclude introduce no variable of their own (proved for the comparisons and count), the query was built in the current counter epoch. Not covered: termination of the recursion.",
+        'note': "Trusted: obeys_key_model::<String>() for HashMap<String,_> (T2), next_id's contract in Verus (assumed there, proved by Kani), T1, T4, T5. RELATIVE TO (assumed in unit solver_ids): the preconditions of get_rule at the solver's call site (the predicate exists, the stored rules are well formed; unify's preconditions are proved at its call sites in unit solver_wf, C08), append / functor / include / exclude introduce no variable of their own (proved for the comparisons and count), the query was built in the current counter epoch. Not covered: termination of the recursion.",
         'technique': 'contract-based deductive verification (Verus) of extracted real code (renaming family; id invariant of the search over a ghost heap model) + Kani harness for the id counter',
         'design_ref': 'DESIGN.md 5/C10, 8.30, 8.36',
     },
@@ -196,7 +198,7 @@ CLAIMED = {
                 'The trace sentence - the output of a whole search is what the reference depth-first search writes, in execution order - is a whole-history statement and is checked BOUNDED only: '
                 '2000 random programs per seed against a reference interpreter (c04_prog).',
         'note': 'Trusted: the cutting specification of str::split (T3, spec/print.rs: at least one piece; uninterpreted otherwise), Display of a term uninterpreted, heap model (T8) for the output events, R10 wrappers for String += and ToString, R16 (print!). '
-                'ASSUMED: acyclic bindings at next_solution_print / next_solution_print_list (C08 invariant, not carried through the solver unit); the text format_slist gives for one list is an uninterpreted function of the list and the bindings.',
+                'The acyclic bindings next_solution_print / next_solution_print_list require are PROVED at the solver\'s call sites (unit solver_wf, C08 8.37). ASSUMED: the text format_slist gives for one list is an uninterpreted function of the list and the bindings.',
         'technique': 'contract-based deductive verification (Verus) of extracted real code (formatting and once-per-execution clauses) + bounded comparison of output traces with a reference interpreter',
         'design_ref': 'DESIGN.md 8.26',
     },
